@@ -181,11 +181,18 @@ func (w *Watcher) Remove(name string) error {
 		return err
 	}
 	name = filepath.Clean(name)
-	if _, ok := w.in.Watches[name]; !ok {
-		return fmt.Errorf("can't remove non-existent inotify watch for: %s", name)
+	if _, ok := w.in.Watches[name]; ok {
+		delete(w.in.Watches, name)
+		return nil
 	}
-	delete(w.in.Watches, name)
-	return nil
+	// a watch whose directory was renamed since: the watcher knows it under the name it was added with
+	for cur, given := range w.in.Watches {
+		if given == name {
+			delete(w.in.Watches, cur)
+			return nil
+		}
+	}
+	return fmt.Errorf("can't remove non-existent inotify watch for: %s", name)
 }
 
 // Close removes all watches and closes the events channel. As in fsnotify 1.5.1 it returns
